@@ -61,9 +61,11 @@ T parsePlugin(const Json::Value& plugin) {
 
   for (const auto& key : json_args.getMemberNames()) {
     const auto& value = json_args[key];
-    // Value has to be a string, number, or bool
+    // Value has to be a string, number, or bool. Anything else makes the whole
+    // plugin invalid (nameless, so the compiler rejects it) rather than a
+    // plugin that silently lost this and every later argument.
     if (!value.isString() && !value.isNumeric() && !value.isBool()) {
-      return ret;
+      return {};
     }
     ret.args[key] = value.asString();
   }
